@@ -389,7 +389,11 @@ class MultitaskMultivariateNormal(MultivariateNormal):
                 col_idx = _normalize_indices(col_idx, num_cols)
                 row_grid, col_grid = torch.meshgrid(row_idx, col_idx, indexing="ij")
                 indices = (row_grid * num_cols + col_grid).reshape(-1)
-                new_cov = self.lazy_covariance_matrix[batch_idx + (indices,)][..., indices]
+                if any(torch.is_tensor(i) for i in batch_idx):
+                    # an index tensor among the batch indices must not be zipped with `indices`
+                    new_cov = self.lazy_covariance_matrix[batch_idx][..., indices, :][..., indices]
+                else:
+                    new_cov = self.lazy_covariance_matrix[batch_idx + (indices,)][..., indices]
                 return MultitaskMultivariateNormal(
                     mean=new_mean, covariance_matrix=new_cov, interleaved=self._interleaved, validate_args=False
                 )
